@@ -220,9 +220,18 @@ def slow_blocks(ev: Evaluator, body_carry: T, C: T) -> List[Block]:
                     cst = strip_wrappers(args[0])
                     hs_names.add(_hs_name(cst))
                     fld, col = None, None
-                    if cst.op == "getitem" and cst.args[1].op == "tuple" and len(cst.args[1].args) == 2:
-                        fld = cst.args[1].args[0].args[0] if cst.args[1].args[0].op == "const" else None
-                        col = cst.args[1].args[1].args[0] if cst.args[1].args[1].op == "const" else None
+                    # constants[field, column], also written constants[field][column]
+                    ix_ = []
+                    c_ = cst
+                    while c_.op == "getitem" and not (c_.args[1].op == "const" and isinstance(c_.args[1].args[0], str)):
+                        ix_ = (list(c_.args[1].args) if c_.args[1].op == "tuple" else [c_.args[1]]) + ix_
+                        c_ = strip_wrappers(c_.args[0])
+                    while ix_ and ix_[0].op == "const" and isinstance(ix_[0].args[0], str):
+                        ix_ = ix_[1:]              # the dictionary key(s) the table is read from
+                    ix_ = ix_[-2:]
+                    if len(ix_) == 2:
+                        fld = ix_[0].args[0] if ix_[0].op == "const" else None
+                        col = ix_[1].args[0] if ix_[1].op == "const" else None
                     if fld != K:
                         b.problems.append(f"candidate walkers of field {K} are scaled with constants of field {fld}")
                     layers.append((c, show(row, maxdepth=4), col))
